@@ -1039,4 +1039,85 @@ def _c09_is_nan_leaf(t):
     return False
 
 
-PROPS = {p.id: p for p in [C06(), C19(), C11(), C16(), C13(), C10(), C15(), C09()]}
+
+# ---------------------------------------------------------------------------
+# C12: macro expansion and inclusion equal reference textual substitution
+# ---------------------------------------------------------------------------
+class C12(Prop):
+    id = "C12"
+    gens = ["GenLexer"]
+    header = 0
+    n_quick = 2500
+    n_thorough = 40000
+    design_ref = "DESIGN.md §4 C12"
+    assumptions = [
+        "tokens reach the model as words (identifier, literal, punctuation, blank, line end); lexing is C10's business; the model pastes by running the lexer model of C10 on the two spellings",
+        "reference = tools/c12ref.py, the C algorithm with per-token hide sets (Prosser), judged on the implementation's output; programs that leave the property's subset (## operand that is a macro name, a line end between a function-like name and its parenthesis) are counted, not judged",
+        "conditional directives are C11's business and are absent from C12 cases; #include uses quoted names resolved by an in-memory handler",
+        "#include/paste and initial-define/in-file equivalence are observed by running the implementation on both forms of the same case",
+    ]
+
+    def shrink_sep(self):
+        return " ; "
+
+    def kind(self, case):
+        k = []
+        if "A " in case.split(" ; ")[0] and case.startswith("A "):
+            k.append("api")
+        if " I " in case:
+            k.append("include")
+        if "##" in case:
+            k.append("paste")
+        n = case.count(" D ")
+        return "defs=%d %s" % (n, "+".join(k) or "plain")
+
+    def impl_part(self, impl):
+        return impl.split(" || ")[0].strip()
+
+    def comparable(self, case, impl, model):
+        return model is not None and not model.startswith("MODEL-") and not model.startswith("BAD")
+
+    def _ref(self, case):
+        import c12ref
+        return c12ref.run_case(case), c12ref.program_facts(case)
+
+    def oracle(self, case, impl, model=None):
+        segs = [x.strip() for x in impl.split(" || ")]
+        main = segs[0]
+        if main.startswith("PANIC") or main.startswith("TIMEOUT"):
+            return "the preprocessor aborted or did not terminate: " + main
+        for seg in segs[1:]:
+            kind, res = seg.split(" ", 1)
+            if res != main:
+                what = "with every #include replaced by the file's text" if kind == "PASTED" else "with the initial defines written as #define lines before the first line"
+                return "the same program %s gives %r instead of %r" % (what, res[:200], main[:200])
+        ref, (cyc, mal) = self._ref(case)
+        if ref[0] == "outside":
+            return None
+        if mal and main.startswith("ERR Macro"):
+            return None
+        if ref[0] == "err":
+            if not main.startswith("ERR"):
+                return "C rejects this program (%s); the preprocessor produced %r" % (ref[1], main[:200])
+            return None
+        got = [t for t in main.split()[1:] if t not in ("~", "$")] if main.startswith("OK") else None
+        if got != ref[1]:
+            return "C expands to %r; the preprocessor produced %r" % (" ".join(ref[1])[:300], main[:300])
+        return None
+
+    def known_class(self, case, impl, model):
+        main = impl.split(" || ")[0].strip()
+        if main.startswith("PANIC") or main.startswith("TIMEOUT"):
+            return None
+        ref, (cyc, mal) = self._ref(case)
+        if len(ref) > 2 and ref[2]:
+            return "paste-empty-operand"
+        if cyc and ref[0] == "ok" and main.startswith("OK"):
+            return "recursive-macro-rescan"
+        return None
+
+    def nontrivial(self, case, impl):
+        return " D " in case and impl.startswith("OK")
+
+
+PROPS = {p.id: p for p in [C06(), C19(), C11(), C16(), C13(), C10(), C15(), C09(), C12()]}
